@@ -38,7 +38,7 @@ ASSUMPTIONS = [
 ]
 REQUIRED_LABELS = {t: ["iteration:valid", "iteration:invalid", "hash:invalid", "sig:malformed",
                        "authorized", "never-authorized", "device-error", "sigs>=2",
-                       "signapp:key", "signapp:manual", "iter:65535", "iter:0"]
+                       "signapp:key", "signapp:manual", "signapp:eth", "iter:65535", "iter:0"]
                    for t in ("quick", "thorough")}
 h32 = st.binary(min_size=32, max_size=32)
 BAD_SIGS = ["", "zz", "30", "3006020101", "3006020101020101ff", "3106020101020101",
@@ -201,6 +201,60 @@ def run_case(c):
             raise Violation("signapp-signature-does-not-verify", "signature %s under key %d" % (
                 last.hex(), j))
         labels.append("signapp:key")
+    # signapp eth: the signature comes from a (simulated) Ledger Ethereum app, which signs the
+    # personal-message digest of the text it is sent with the key of the path it is sent
+    import admin.dongle_eth as deth
+    import struct as _st
+    eth_sk = certs.sk_from_int(c["signapp_keys"][0] + 7)
+    eth_seen = {}
+
+    class EthApp:
+        opened = True
+
+        def close(self):
+            self.opened = False
+
+        def exchange(self, apdu, timeout=None):
+            apdu = bytes(apdu)
+            cmd = apdu[1]
+            npath = apdu[5]
+            path = apdu[6:6 + 4 * npath]
+            eth_seen.setdefault("paths", []).append(path)
+            if cmd == 0x02:
+                pub = certs.pub_uncompressed(eth_sk)
+                return bytearray(bytes([len(pub)]) + pub + b"\x00")
+            if cmd == 0x08:
+                rest = apdu[6 + 4 * npath:]
+                ln = _st.unpack(">I", rest[:4])[0]
+                text = rest[4:4 + ln]
+                eth_seen["text"] = text
+                dg = refs.keccak256(b"\x19Ethereum Signed Message:\n" + str(len(text)).encode() +
+                                    text)
+                sig = eth_sk.sign_digest(dg, sigencode=ecdsa.util.sigencode_string)
+                return bytearray(b"\x1b" + sig)
+            raise deth.CommException("Invalid status 6d00", 0x6D00)
+    saved_gd = deth.getDongle
+    deth.getDongle = lambda debug: EthApp()
+    try:
+        eth_out = os.path.join(d, "signapp-eth.json")
+        code, out = run_main(signapp, ["signapp.py", "eth", "-a", app_path, "-i", str(n), "-o",
+                                       eth_out, "-p", "m/44'/60'/0'/0/%d" % (n % 5)])
+    finally:
+        deth.getDongle = saved_gd
+    if code != 0:
+        raise Violation("signapp-eth-failed", "exit %r: %s" % (code, out[-300:]))
+    doc = json.load(open(eth_out))
+    want_path = b"".join(_st.pack(">I", x) for x in (44 + 2 ** 31, 60 + 2 ** 31, 2 ** 31, 0,
+                                                      n % 5))
+    if eth_seen.get("text") != expected_text(app_hash, n)[0].encode() or \
+            any(pth != want_path for pth in eth_seen.get("paths", [])):
+        raise Violation("signapp-eth-request", "Ethereum app was sent text %r on paths %r" % (
+            eth_seen.get("text"), [x.hex() for x in eth_seen.get("paths", [])]))
+    if doc.get("signer") != {"hash": app_hash, "iteration": n} or \
+            len(doc.get("signatures", [])) != 1 or not verify_libsecp(
+                certs.pub_uncompressed(eth_sk), app_digest, bytes.fromhex(doc["signatures"][0])):
+        raise Violation("signapp-eth-signature", json.dumps(doc)[:300])
+    labels.append("signapp:eth")
     if good:
         code, out = run_main(signapp, ["signapp.py", "manual", "-o", out_path, "-g", good[0]])
         if code != 0:
